@@ -15,6 +15,9 @@ T1_FLAGS = ["-Dpthread_create=t1_pthread_create"]
 CTR = 300          # trace loc of semaphore->counter
 
 
+L_REST = 3900     # search mode: byte b of the fiber_semaphore_t = 3900 + b (bytes registered otherwise keep their locs)
+
+
 def parse_case(case):
     v = [int(x) for x in case.split()]
     i = 1 + v[0]
@@ -31,6 +34,9 @@ def monitor(case, tr, raw):
     """oracle of the property itself on an implementation trace (None = fine)."""
     if tr is None:
         return "implementation produced no trace: %s" % (raw or "")[:80]
+    # search mode (RT_CATCHALL=1): accesses to bytes of the object(s) that have no location of their own are
+    # scheduling points, not events of the protocol judged here
+    tr = [e for e in tr if e[1] < L_REST or e[2] in (909, 919)]
     params, progs = parse_case(case)
     init = params[1] if len(params) > 1 else 0
     n = len(progs)
@@ -309,11 +315,12 @@ def search(ctx, exe):
         cases = gen_cases(c2, "thorough")[:20000]
     finally:
         c2.cleanup()
-    impl = core.run_sharded([exe], cases)
+    # RT_CATCHALL: every byte of the semaphore object is a scheduling point (unknown fields; also the waiter queue head/tail)
+    impl = core.run_sharded(["env", "RT_CATCHALL=1", exe], cases)
     for c, line in zip(cases, impl):
         why = core.safe_monitor(monitor, c, core.parse_trace(line) if line is not None else None, line)
         if why:
-            core.report_violation(ctx, "sem", c, why, line)
+            core.report_violation(ctx, "sem+catchall", c, why, line)
             if len(ctx.violations) >= 3:
                 break
 
@@ -324,6 +331,11 @@ def replay(ctx, payload):
     if not exe or not c:
         print("nothing to replay (no concrete case in this file)")
         return 2
+    if str(payload.get("harness", "")).endswith("+catchall"):
+        impl = core.run_sharded(["env", "RT_CATCHALL=1", exe], [c])[0]
+        why = core.safe_monitor(monitor, c, core.parse_trace(impl) if impl is not None else None, impl)
+        print("case:  %s\nimpl (every byte of the object a scheduling point):  %s\nmonitor: %s" % (c, impl, why or "ok"))
+        return 1 if why else 0
     impl = core.run_sharded([exe], [c])[0]
     mod = core.model_run("sem", [c])[0]
     why = monitor(c, core.parse_trace(impl), impl)
